@@ -234,4 +234,39 @@ def gen(rng, tier):
         for n in ls:
             for v in family(rng, n):
                 query_reqs(rng, v, reqs)
+    by_value_shift_reqs(rng, tier, reqs)
     return reqs
+
+def by_value_shift_reqs(rng, tier, reqs):
+    """api-coverage block: the by-value impls `x << k`, `x >> k` (ops `*_val`) for both types: amounts around the
+    digit boundaries and the value's length, every trailing-zero relation for negative values (the round-down
+    adjustment of `Shr<T> for BigInt` is a separate copy of the by-reference code), negative amounts, every
+    amount type, zero operands, huge right shifts"""
+    ls = [1, 2, 3, 5] + ([17, 40] if tier == "thorough" else [9])
+    for n in ls:
+        for v in runs(rng, n)[:4] + [big(rng, n), B ** n - 1, B ** (n - 1)]:
+            nn = len(limbs_of(v))
+            for k in shift_amounts(rng, nn, tier):
+                s = signed(rng, v)
+                reqs.append("C07 i.shr_val %s %s" % (wi(s), shift_token(rng, k)))
+                reqs.append("C07 u.shr_val %s %s" % (wu(v), shift_token(rng, k)))
+                if k <= 64 * nn + 130 and rng.randrange(2):
+                    reqs.append("C07 i.shl_val %s %s" % (wi(s), shift_token(rng, k)))
+                    reqs.append("C07 u.shl_val %s %s" % (wu(v), shift_token(rng, k)))
+    for t in range(0, 200 if tier == "thorough" else 140, 1 if tier == "thorough" else 3):
+        odd = rng.choice([1, 3, (1 << 64) - 1, rng.randrange(B) | 1, rng.randrange(B * B) | 1])
+        v = odd << t
+        for k in {max(t - 1, 0), t, t + 1, t // 64 * 64, t // 64 * 64 + 63}:
+            reqs.append("C07 i.shr_val %s %s" % (wi(-v), shift_token(rng, k)))
+    for ty in list(UTYPES) + list(ITYPES):
+        hi, lo = tmax(ty), tmin(ty)
+        v = big(rng, 3)
+        for k in [0, 1, 64, hi, hi - 1, min(hi, 1 << 64), min(hi, (1 << 70) + 5)] + ([] if lo == 0 else [-1, -64, lo]):
+            reqs.append("C07 i.shr_val %s %s:%d" % (wi(-v), ty, k))
+            reqs.append("C07 u.shr_val %s %s:%d" % (wu(v), ty, k))
+            if k < 0 or k <= 1000:
+                reqs.append("C07 i.shl_val %s %s:%d" % (wi(-v), ty, k))
+                reqs.append("C07 u.shl_val %s %s:%d" % (wu(v), ty, k))
+            reqs.append("C07 i.shl_val 0. %s:%d" % (ty, k))
+            reqs.append("C07 u.shl_val . %s:%d" % (ty, k))
+            reqs.append("C07 i.shr_val 0. %s:%d" % (ty, k))
